@@ -124,6 +124,14 @@ class ClassV(Val):
         self.ci = ci
 
 
+class LambdaV(Sym):
+    """A lambda expression: renders as its source text (like any opaque symbol) but can be applied when it is called by name."""
+    def __init__(self, text, fi, closure_env):
+        Sym.__init__(self, text)
+        self.fi = fi
+        self.closure_env = closure_env
+
+
 # --------------------------------------------------------------------------------------------- rendering
 def _hex(b):
     return ''.join('%02x' % c for c in b)
@@ -849,7 +857,7 @@ class Frame(object):
             if any(isinstance(e, Sym) and e.text.startswith('*') for e in itv.elems):
                 return None, t          # (a, *rest): the starred part has unknown length - summarise
             return itv.elems, t
-        if isinstance(itv, Const) and isinstance(itv.value, (tuple, list)) and len(itv.value) <= 12:
+        if isinstance(itv, Const) and isinstance(itv.value, (tuple, list, bytes, bytearray)) and len(itv.value) <= 12:
             return [Const(x) for x in itv.value], t
         return None, t
 
@@ -886,7 +894,46 @@ class Frame(object):
         d = self.decide(node.test, st)
         if d is False:
             return self.block(node.orelse, st)
+        if d is True:
+            r = self._unroll_counted_while(node, st)
+            if r is not None:
+                return r
         return self._summarise_loop(node, st, 'while ' + self.text(node.test, st), '_', None)
+
+    def _unroll_counted_while(self, node, st, limit=512):
+        """A while loop whose test reads only locals that hold integer constants (a counter) is followed iteration by iteration, as
+        long as every iteration has one path and the test stays decided; otherwise None (the caller summarises the loop as before)."""
+        names = [n.id for n in ast.walk(node.test) if isinstance(n, ast.Name)]
+        if not names or not all(isinstance(st.env.get(n), Const) and type(st.env[n].value) in (int, bool) for n in names):
+            return None
+        cur = st.fork()
+        for _ in range(limit):
+            d = self.decide(node.test, cur)
+            if d is False:
+                outs = self.block(node.orelse, cur)
+                break
+            if d is not True:
+                return None
+            outs = self.block(node.body, cur)
+            if len(outs) != 1:
+                return None
+            cur, status = outs[0]
+            if status == 'break':
+                outs = [(cur, 'normal')]
+                break
+            if status in ('return', 'raise'):
+                break
+        else:
+            return None
+        # the walk happened on a copy: adopt its result as this path's state
+        final = []
+        for s2, status in outs:
+            if s2 is cur:
+                st.__dict__.update(s2.__dict__)
+                final.append((st, status))
+            else:
+                final.append((s2, status))
+        return final
 
     def _bname(self, node):
         k = self.bindex.get(id(node), 0)
@@ -982,6 +1029,13 @@ class Frame(object):
                     len(body) == 1 and body[0][1] == 'normal' and render(base.env.get(name)) == '(%d + %s)' % (old.value, vartext):
                 # acc = k; for x in C: acc += x   is   k + sum(C)
                 base.env[name] = Sym('sum(%s)' % colltext) if old.value == 0 else Sym('(%d + sum(%s))' % (old.value, colltext))
+            elif isinstance(old, Const) and isinstance(old.value, str) and target is not None:
+                # text accumulated in a loop (s += piece): s + ''.join(piece for ...), if every path of the body appends the same piece
+                pre = '(%s + ' % render(old)
+                news = set(render(s.env.get(name)) if s.env.get(name) is not None else None for s in normal)
+                new = base.env.get(name)
+                if len(news) == 1 and isinstance(new, Sym) and new.text.startswith(pre) and new.text.endswith(')') and _balanced(new.text[len(pre):-1]):
+                    base.env[name] = Sym("(%s + ''.join(EACH(%s in %s;%s)))" % (render(old), vartext, colltext, new.text[len(pre):-1]))
         # yields inside the loop
         ys = []
         for s in normal:
@@ -1292,6 +1346,16 @@ class Frame(object):
             if f is not None:
                 return Sym(path, cls=None)
             return Sym(path)
+        if node.attr == '__contains__' and isinstance(base, ListV) and base.elems and all(isinstance(e, Const) for e in base.elems):
+            try:        # the bound method of a literal collection is the predicate `x in <collection>`
+                lam = ast.parse('lambda _x: _x in %s' % bt, mode='eval').body
+                ast.copy_location(lam, node)
+                ast.fix_missing_locations(lam)
+                v = self.ev_Lambda(lam, st)
+                v.text = path
+                return v
+            except SyntaxError:
+                pass
         if node.attr == 'hasher':
             return Hasher(bt)
         cls = base.cls if isinstance(base, (Sym, Obj)) else None
@@ -1335,7 +1399,13 @@ class Frame(object):
         if owner is None:
             return None
         fr = Frame(self.I, FunctionInfo(ast.parse('def _f(): pass').body[0], owner.module, owner), self.depth)
-        elems = [fr.ev(e, State()) for e in inner.elts]
+        st0 = State()
+        for k, v in owner.attrs.items():          # other literal constants of the class body are in scope there
+            try:
+                st0.env[k] = Const(ast.literal_eval(v))
+            except Exception:
+                pass
+        elems = [fr.ev(e, st0) for e in inner.elts]
         if not all(isinstance(e, Const) for e in elems):
             return None
         return ListV(elems, 'set' if isinstance(inner, ast.Set) else 'tuple')
@@ -1349,7 +1419,18 @@ class Frame(object):
         return False
 
     def ev_JoinedStr(self, node, st):
-        return Sym(ast.unparse(node))
+        # f'a{x!r:>4}b' is the value 'a{!r:>4}b'.format(x): one spelling, with the interpolated values rendered like any other
+        tmpl, args = '', []
+        for v in node.values:
+            if isinstance(v, ast.Constant):
+                tmpl += str(v.value).replace('{', '{{').replace('}', '}}')
+            elif isinstance(v, ast.FormattedValue) and (v.format_spec is None or all(isinstance(x, ast.Constant) for x in v.format_spec.values)):
+                spec = '' if v.format_spec is None else ''.join(str(x.value) for x in v.format_spec.values)
+                tmpl += '{%s%s}' % ('!' + chr(v.conversion) if v.conversion and v.conversion > 0 else '', ':' + spec if spec else '')
+                args.append(self.ev(v.value, st))
+            else:
+                return Sym(ast.unparse(node))
+        return Sym('%r.format(%s)' % (tmpl, ', '.join(render(a) for a in args)))
 
     def ev_Tuple(self, node, st):
         return ListV([self.ev(e, st) for e in node.elts], 'tuple')
@@ -1370,7 +1451,13 @@ class Frame(object):
         return Sym('*' + self.text(node.value, st))
 
     def ev_Lambda(self, node, st):
-        return Sym(ast.unparse(node))
+        try:
+            fd = ast.FunctionDef(name='<lambda>', args=node.args, body=[ast.Return(value=node.body)], decorator_list=[], returns=None, type_params=[])
+            ast.copy_location(fd, node)
+            ast.fix_missing_locations(fd)
+            return LambdaV(ast.unparse(node), FunctionInfo(fd, self.module, None, outer=self.fi), st.env)
+        except Exception:       # pragma: no cover
+            return Sym(ast.unparse(node))
 
     def _map_known(self, node, st):
         """[f(x) for x in L] with L a known list: map element-wise (EachV elements are mapped inside)."""
@@ -1586,6 +1673,16 @@ class Frame(object):
         path = '%s[%s]' % (render(base), self._slice_text(sl, st))
         if path in st.env:
             return st.env[path]
+        if isinstance(base, Const) and isinstance(base.value, (tuple, str, bytes, bytearray)):
+            # constant folding: a literal sequence indexed / sliced by literals
+            parts = [sl.lower, sl.upper, sl.step] if isinstance(sl, ast.Slice) else [sl]
+            vals = [None if x is None else self.ev(x, st) for x in parts]
+            if all(v is None or (isinstance(v, Const) and (v.value is None or type(v.value) is int)) for v in vals):
+                nums = [None if v is None else v.value for v in vals]
+                try:
+                    return Const(base.value[slice(*nums)] if isinstance(sl, ast.Slice) else base.value[nums[0]])
+                except (IndexError, TypeError, ValueError):
+                    pass
         if isinstance(sl, ast.Slice):
             lo = self.text(sl.lower, st) if sl.lower is not None else ''
             if lo == '0':
@@ -1663,6 +1760,11 @@ class Frame(object):
                 if exc:
                     raise CallRaises(exc)
 
+        # ---- operator.itemgetter(k1, k2..)(d) is (d[k1], d[k2]..)
+        if isinstance(func, ast.Call) and dotted(func.func) in ('operator.itemgetter', 'itemgetter') and func.args and len(node.args) == 1 and \
+                not node.keywords and not func.keywords:
+            items = [self.ev(ast.copy_location(ast.Subscript(value=node.args[0], slice=k, ctx=ast.Load()), node), st) for k in func.args]
+            return items[0] if len(items) == 1 else ListV(items, 'tuple')
         # ---- method calls on interpreted values
         if isinstance(func, ast.Attribute):
             recv = self.ev(func.value, st)
@@ -1706,8 +1808,8 @@ class Frame(object):
                     recv.elems.append(args[0])
                     record(ftext)
                     return Const(None)
-                if meth == 'extend' and len(args) == 1 and isinstance(args[0], ListV):
-                    recv.elems.extend(args[0].elems)
+                if meth == 'extend' and len(args) == 1 and isinstance(args[0], (ListV, EachV)):
+                    recv.elems.extend(args[0].elems if isinstance(args[0], ListV) else [args[0]])     # extend(genexp) == the append loop
                     record(ftext)
                     return Const(None)
                 if meth == 'insert' and len(args) == 2 and isinstance(args[0], Const) and isinstance(args[0].value, int) and \
@@ -1792,13 +1894,15 @@ class Frame(object):
                         return r
                     return Sym('%s.%s(%s)' % (render(recv), meth, self._argtext(args, kwargs)))
             record(ftext)
+            if meth == 'get' and len(args) in (1, 2) and not kwargs and '%s[%s]' % (render(recv), render(args[0])) in st.env:
+                return st.env['%s[%s]' % (render(recv), render(args[0]))]          # d.get(k) of an entry the scenario / path knows
             return self._opaque_call(ftext, args, kwargs, recv, meth)
 
         # ---- plain names
         if isinstance(func, ast.Name):
             n = func.id
             callee = st.env.get(n)
-            if isinstance(callee, FuncV):
+            if isinstance(callee, (FuncV, LambdaV)):
                 record(n)
                 r = self._maybe_inline(callee.fi, None, args, kwargs, st, node, closure=callee.closure_env, force=True)
                 if r is not None:
@@ -1808,6 +1912,10 @@ class Frame(object):
                 # a local (not a parameter such as `cls`) bound to a class (k = A if c else B; k()): the call constructs that class
                 record(callee.ci.name)
                 return self._construct(callee.ci, args, kwargs, st, node)
+            if isinstance(callee, Sym) and callee.text != n and re.match(r'^[\w.()]+$', callee.text):
+                # a local that holds a callable value (bound method, function reference): the call is a call of that value
+                record(callee.text)
+                return Sym('%s(%s)' % (callee.text, self._argtext(args, kwargs)))
             if n in ('bytearray', 'bytes'):
                 record(n)
                 if not args:
@@ -1844,6 +1952,8 @@ class Frame(object):
                     r = self._maybe_inline(lfi, a, [], {}, st, node)
                     if r is not None:
                         return r
+                if isinstance(a, Const) and isinstance(a.value, (str, bytes, bytearray, tuple)):
+                    return Const(len(a.value))
                 return Sym('len(%s)' % render(a))
             if n in ('int', 'bool', 'str') and len(args) == 1 and isinstance(args[0], Const) and \
                     not isinstance(args[0].value, Enum):
@@ -1874,6 +1984,13 @@ class Frame(object):
                 if fv is not None:
                     record(n)
                     return fv
+            if n in ('frozenset', 'set', 'tuple', 'list') and len(args) == 1 and not kwargs and isinstance(args[0], ListV) and \
+                    all(isinstance(e, Const) for e in args[0].elems):
+                record(n)
+                return ListV(args[0].elems, 'set' if n in ('set', 'frozenset') else n)     # a literal collection, whatever its container
+            if n == 'iter' and len(args) == 1 and not kwargs and isinstance(args[0], Const) and isinstance(args[0].value, (tuple, list, bytes, bytearray)):
+                record(n)
+                return args[0]          # iterating iter(<literal sequence>) is iterating the sequence
             if n == 'reversed' and len(args) == 1 and isinstance(args[0], ListV):
                 rev = []
                 for e in reversed(args[0].elems):
@@ -1931,6 +2048,12 @@ class Frame(object):
 
     def _opaque_call(self, ftext, args, kwargs, recv, meth):
         self.I.unresolved_calls += 1
+        if isinstance(recv, Const) and isinstance(recv.value, str) and meth in PURE_STR_METHODS and not kwargs and \
+                all(isinstance(a, Const) and isinstance(a.value, (str, int)) and not isinstance(a.value, Enum) for a in args):
+            try:
+                return Const(getattr(recv.value, meth)(*[a.value for a in args]))      # constant folding of a pure str method
+            except Exception:
+                pass
         at = self._argtext(args, kwargs)
         base = render(recv)
         # transparent wrappers: bytes(x) etc. are handled elsewhere; here a few text-preserving methods
@@ -2177,6 +2300,9 @@ def normalise_path(p):
     """Aliases decided from the class table once (ParentRef.parent returns _parent)."""
     return p.replace('.parent.', '._parent.') if '.parent.' in p else (p[:-7] + '._parent' if p.endswith('.parent') else p)
 
+
+PURE_STR_METHODS = ('startswith', 'endswith', 'find', 'rfind', 'index', 'count', 'lower', 'upper', 'strip', 'lstrip', 'rstrip',
+                    'isupper', 'islower', 'isdigit', 'isalpha', 'isalnum', 'isspace', 'replace', 'title', 'capitalize')
 
 OPS = {ast.Add: '+', ast.Sub: '-', ast.Mult: '*', ast.Div: '/', ast.FloorDiv: '//', ast.Mod: '%', ast.Pow: '**',
        ast.LShift: '<<', ast.RShift: '>>', ast.BitOr: '|', ast.BitAnd: '&', ast.BitXor: '^', ast.MatMult: '@',
